@@ -42,6 +42,9 @@ func init() {
 			{ID: "C09.22", Desc: "min-fresh is measured against the freshness lifetime (Expires, heuristic), not the max-age value", Run: func(c *Ctx) { ruleMinFreshAgainstLifetime(c, "C09.22") }, MinSites: 1},
 			{ID: "C09.23", Desc: "the lifetime comes from max-age, then Expires, then the heuristic (s-maxage is not a private cache's)", Run: func(c *Ctx) { ruleC01_1(c); renameRule(c, "C01.1", "C09.23") }, MinSites: 1},
 			{ID: "C09.24", Desc: "a response on another port does not evict the entry (the written port precedes the default)", Run: func(c *Ctx) { ruleWrittenPortBeforeDefault(c, "C09.24") }, MinSites: 1},
+			{ID: "C09.25", Desc: "the entry's request time is read from the clock in front of the origin call and its response time behind it, on every path into the entry", Run: func(c *Ctx) { ruleTimeRoles(c, "C09.25") }, MinSites: 2},
+			{ID: "C09.26", Desc: "every index read and write reachable from RoundTrip uses the result of the URL key function as its key", Run: func(c *Ctx) { ruleIndexKeyIsURLKey(c, "C09.26") }, MinSites: 3},
+			{ID: "C09.27", Desc: "the entry read and the position handed on use the matcher's result as index into the matched list", Run: func(c *Ctx) { ruleLookupPosition(c, "C09.27") }, MinSites: 2},
 		},
 	})
 }
